@@ -2,6 +2,8 @@
 """prints the prompt for a seeded-breakage sub-agent: only the property record and the scratch paths"""
 import json, sys
 pid, tag = sys.argv[1], sys.argv[2]
+avoid = sys.argv[3] if len(sys.argv) > 3 else ''
+note = ('NOTE: another developer has already seeded a bug in ' + avoid + ' - pick a DIFFERENT file and a different mechanism, so that the two bugs exercise different parts of the property.\n\n') if avoid else ''
 p = next(json.loads(l) for l in open('/verif/properties.jsonl') if json.loads(l)['id'] == pid)
 wt = f"/tmp/seed-{tag}"
 out = f"/tmp/seed-{tag}-out"
@@ -13,7 +15,7 @@ Here is a semantic property of s2n-quic that is supposed to hold (JSON record):
 
 {json.dumps(p, indent=1)}
 
-TASK: make ONE small, realistic source change (the kind of mistake a maintainer could plausibly make in a refactor, optimisation or feature change: an off-by-one, a dropped or inverted condition, a wrong variable, a missing state update, a reordered statement, a forgotten case...) in the non-test source code of the repository such that
+{note}TASK: make ONE small, realistic source change (the kind of mistake a maintainer could plausibly make in a refactor, optimisation or feature change: an off-by-one, a dropped or inverted condition, a wrong variable, a missing state update, a reordered statement, a forgotten case...) in the non-test source code of the repository such that
  1. the repository still compiles,
  2. the EXISTING tests still pass - at the very least all tests of every crate you touched and of the crates that directly exercise it (run them with e.g. `cd {wt}/$(cat /w/out/cargo_root.txt 2>/dev/null || echo .) && CARGO_TARGET_DIR={wt}-target cargo nextest run -p <crate> --offline -j 6`; the integration tests live in the packages `s2n-quic-tests` and `s2n-quic` and unit tests in `s2n-quic-core`, `s2n-quic-transport`, `s2n-quic-dc`...; the one test `s2n-quic-dc stream::tests::shared_cache::test_kernel_queue_full` fails already without your change - ignore it). If an existing test fails because of your change, choose a different change - do NOT edit, delete or ignore tests, snapshots included,
  3. the property above is genuinely BROKEN by the change, but only under some specific circumstance (a particular input, configuration, loss/reordering pattern, timing, schedule or peer behaviour) - not on every connection, otherwise the existing tests would notice,
